@@ -323,12 +323,15 @@ def _has(t, *tokens):
             have.add("iter")  # a loop over [(ref..), (est..)] unrolled into explicit per-annotation code reads the parameter itself
         elif x.op == "attr":
             have.add("a:" + x.a[1])
-            if x.a[1] == "shape":
+            if x.a[1] in ("shape", "size"):
                 have.add("f:builtins.len")
+                have.add("a:shape")
+                have.add("a:size")  # (x.size, x.shape[0] and len(x) are one token: the length of a validated 1-d array)
         elif x.op == "call":
             have.add("f:" + str(call_name(x)))
             if call_name(x) == "builtins.len":
                 have.add("a:shape")  # len(x) is x.shape[0]: the two spellings of a length are one token
+                have.add("a:size")
         elif x.op == "const":
             v = x.a[0]
             if isinstance(v, float) and v == int(v):
